@@ -124,6 +124,8 @@ impl<E: BulkEvaluator> ShapeBulkEval<E> {
 // ---------- pixels
 #[derive(Copy, Clone)]
 pub struct RawDistancePixel(pub f32);
+/// `#[derive(Default)]` of the real type
+impl Default for RawDistancePixel { #[verifier::external_body] fn default() -> Self { RawDistancePixel(0.0) } }
 #[derive(Copy, Clone)]
 pub enum DistancePixel { Value(f32), Fill { depth: u8, inside: bool } }
 pub uninterp spec fn px_fill(depth: u8, inside: bool) -> RawDistancePixel;
@@ -134,7 +136,7 @@ pub fn px_from(p: DistancePixel) -> (r: RawDistancePixel)
 #[verifier::external_body]
 pub fn px_from_f32(p: f32) -> (r: RawDistancePixel) ensures r == px_val(p) { unimplemented!() }
 
-pub struct Image { pub data: Vec<RawDistancePixel> }
+/*@IMAGE@*/
 /// `image[start..][..n].fill(v)`
 pub fn fill_range(img: &mut Image, start: usize, n: usize, v: RawDistancePixel)
     requires start <= old(img).data@.len(), n <= old(img).data@.len() - start
